@@ -93,6 +93,38 @@ def _job(args):
     return res
 
 
+def _symlink_job(args):
+    """The configuration is reached through a symlinked directory and source_dir climbs out of it with `..`: resolution must follow
+    the file system (the parent of the link's target), not fold `..` textually against the path the user typed."""
+    work, sd, cf, cw, check = args
+    root = os.path.join(work, "sl")
+    real_proj = os.path.join(root, "real", "deep", "proj")
+    real_src = os.path.join(root, "real", "deep", "src")
+    ws = os.path.join(root, "ws")
+    trap_src = os.path.join(ws, "src")
+    for d in (real_proj, real_src, trap_src, os.path.join(root, "elsewhere")):
+        os.makedirs(d)
+    cli.write_tree(real_src, {"in_scope.rs": STMT, "sub/also.rs": STMT})
+    cli.write_tree(trap_src, {"trap.rs": STMT})
+    cli.write_tree(os.path.join(root, "real", "src"), {"trap2.rs": STMT})
+    os.symlink("../real/deep/proj", os.path.join(ws, "proj"))
+    with open(os.path.join(real_proj, "Breadlog.yaml"), "w") as f:
+        f.write(cli.config_yaml(sd, macros=[("log", "info")]))
+    cwd = {"ws": ws, "root": root, "unrelated": os.path.join(root, "elsewhere")}[cw]
+    cfg_abs = os.path.join(ws, "proj", "Breadlog.yaml")
+    cfg = cfg_abs if cf == "absolute" else os.path.relpath(cfg_abs, cwd)
+    before = cli.snapshot(root)
+    tmp = os.path.join(work, "tmp")
+    os.makedirs(tmp)
+    r = cli.run_breadlog(cfg, check=check, cwd=cwd, tmpdir=tmp, timeout=30)
+    after = cli.snapshot(root)
+    diff = [k for k, a, b in cli.snapshot_diff(before, after) if not ((a or b)[0] == "d" and a is not None and b is not None)]
+    rep = cli.Report(r.stdout)
+    reported = sorted({os.path.basename(f) for f, _, _ in rep.missing})
+    shutil.rmtree(work, ignore_errors=True)
+    return sd, cf, cw, check, r.exit, r.panicked, sorted(diff), reported
+
+
 def space(tier):
     names = sorted(ENTRIES)
     subsets = []
@@ -161,6 +193,32 @@ def run(tier, v):
                     v.violation("%s:src=%s:cfg=%s:cwd=%s" % (b, "abs" if sf.startswith("ABS") else "rel", cf, cw) if "scope" not in b else "%s:ext=%s" % (b, en),
                                 {"entries": list(subset), "extensions": en, "source_dir": sf, "config_path": cf, "cwd": cw, "mode": "check" if check else "edit",
                                  "exit": ex, "expected_in_scope": want, "changed": changed, "reported": reported, "stdout": out.decode("utf-8", "replace")})
+    # configuration reached through a symlinked directory
+    sjobs = []
+    for sd, cf, cw, check in itertools.product(["../src", "./../src", "../src/"], CFG_FORMS, ["ws", "root", "unrelated"], (True, False)):
+        w = os.path.join(base, "s%d" % len(sjobs))
+        os.makedirs(w)
+        sjobs.append((w, sd, cf, cw, check))
+    with multiprocessing.Pool(NCPU) as pool:
+        for sd, cf, cw, check, ex_, pan_, diff, reported in pool.map(_symlink_job, sjobs):
+            v.count()
+            v.distinct(("symlinked-config", sd, cf, cw, check))
+            bad = []
+            want_changed = sorted(["real/deep/src/in_scope.rs", "real/deep/src/sub/also.rs", "real/deep/proj/Breadlog.lock"])
+            if pan_:
+                bad.append("abnormal-termination")
+            if check:
+                if diff:
+                    bad.append("check-changed-something")
+                if reported != ["also.rs", "in_scope.rs"]:
+                    bad.append("check-reported-files-differ-from-scope")
+            elif diff != want_changed:
+                bad.append("edited-files-differ-from-scope")
+            for b in bad:
+                v.violation("symlinked-config-dir:%s" % b, {"source_dir": sd, "config_path": cf, "cwd": cw, "mode": "check" if check else "edit", "exit": ex_,
+                                                            "changed": diff, "reported": reported, "expected_changed": want_changed})
+    v.subspace("configuration reached through a symlinked directory, source_dir {../src, ./../src, ../src/} climbing out of it x config path x cwd x mode",
+               len(sjobs))
     v.subspace("subsets of 28 directory entries (size <= %d + the full set) x extensions{omitted,[rs],[rs,rsx],[RS],[txt]} x source_dir{./src,src,absolute,./src/,src/../src,absolute/} x "
                "config path{relative,absolute} x cwd{config dir,parent,unrelated} x mode%s" % (3 if tier == "thorough" else 2,
                "" if tier == "thorough" else " (quick: every 6th (subset,configuration) pair, the full set with every configuration)"),
